@@ -11,7 +11,7 @@
      {"ev":"Send","p":p,"m":msg,"now":t}                a distinct wire message of honest p enters the network
      {"ev":"Round","p":p,"from":r,"to":r2,"rule":..}    p's qbft core changed round (LogRoundChange, as logged by the component)
      {"ev":"Unjust","p":p,"type":..,"src":s}            p's qbft core dropped a message of s as unjustified (LogUnjust)
-     {"ev":"Reject","from":s,"err":..}                  Consensus.handle of a live honest member refused a wire message of s
+     {"ev":"Reject","from":s,"err":..,"kind":k}         Consensus.handle of a live honest member refused a wire message of s
      {"ev":"Decide","p":p,"v":v,"round":r,"now":t}      p's Subscribe callback fired with value v (round from the component)
      {"ev":"Crash","p":p} {"ev":"Loss",..}              faults injected by the network
      {"ev":"ByzSend","b":b,"m":msg,"to":[..]}           a Byzantine member put a crafted message on the wire
@@ -32,6 +32,10 @@
      TimelyDecision    (eager timer) a member decides before the doubled deadline of the highest round it was in;
      NoInstanceError, InstancesExpire. *)
 EXTENDS QBFTTimedTrace
+CONSTANT DevStopOnDecide   \* FALSE: the property as stated.  TRUE (deviation cfg, finding C04-component-stops-on-decide): a running
+                           \* member may remain undecided when so many members have decided - the component cancels a decided
+                           \* instance, so they no longer answer ROUND-CHANGE with DECIDED - that the undecided ones (plus the
+                           \* Byzantine members) are fewer than a quorum
 VARIABLES rejected, runerr, leftover, dtime, rmax
 cvars == <<now, r0, ended, rejected, runerr, leftover, dtime, rmax>>
 ctvars == <<vars, tr, l, cvars>>
@@ -68,7 +72,9 @@ CRound == /\ IsEvent("Round") /\ Ev.p \in Honest /\ AtTime
 CUnjust == /\ IsEvent("Unjust") /\ Ev.p \in Honest /\ AtTime
            /\ unjust' = unjust \cup {<<Ev.p, [src |-> Ev.src, type |-> Ev.type]>>}
            /\ Same(<<st, msgs, out, r0, ended, rejected, runerr, leftover, dtime, rmax>>)
-CReject == /\ IsEvent("Reject") /\ AtTime /\ rejected' = rejected \cup {Ev.from}
+\* (a refusal because the duty's receive buffer stayed full for the whole receive timeout says nothing about the message)
+CReject == /\ IsEvent("Reject") /\ AtTime
+           /\ rejected' = IF Ev.kind = "buffer" THEN rejected ELSE rejected \cup {Ev.from}
            /\ Same(<<vars, r0, ended, runerr, leftover, dtime, rmax>>)
 \* Definition.Decide -> the Subscribe callback (a member that crashed in the same instant may still be heard)
 CDecide == /\ IsEvent("Decide") /\ Ev.p \in Honest /\ Ev.sameduty /\ AtTime
@@ -110,8 +116,14 @@ SniffBases(s) == UNION {{Strip(MsgOf(x.m))} \cup {Norm(BaseOf(b)) : b \in SeqToS
 \* (the member's own messages are looped back inside the component and need not have reached the wire: a crashed member)
 Authentic == JustDid("Sniff") => \A b \in SniffBases(Prev) : (b.src \in Honest /\ b.src # Prev.p) => b \in HonestSent
 TimelyDecision == (ended /\ Timely /\ Cfg.timer = "eager") =>
-                     \A p \in Running(st) : st[p].decided => dtime[p] <= 2 * Cfg.roundms * rmax[p]
-BoundedDecisionT == Timely => BoundedDecision
+                     \A p \in Running(st) : st[p].decided => dtime[p] <= 2 * (Cfg.roundms * rmax[p] + Cfg.extrams)
+Undecided == {p \in Running(st) : ~st[p].decided}
+Stranded(p) == /\ DevStopOnDecide /\ p \in Undecided /\ \E q \in Honest : st[q].decided
+               /\ Cardinality(Undecided) + Cardinality(Byz) < Q
+BoundedDecisionT == Timely =>
+                      IF DevStopOnDecide
+                        THEN ended => \A p \in Running(st) : Stranded(p) \/ (st[p].decided /\ st[p].dround <= r0 + N)
+                        ELSE BoundedDecision
 CMark == /\ CheckInv("Agreement", Agreement) /\ CheckInv("DecideOnce", DecideOnce) /\ CheckInv("NonZero", NonZero)
          /\ CheckInv("Validity", Validity) /\ CheckInv("LeaderProposed", LeaderProposed)
          /\ CheckInv("OneVotePerRound", OneVotePerRound) /\ CheckInv("NoHonestUnjust", NoHonestUnjust)
